@@ -117,17 +117,19 @@ theorem doSelect_tr (st : State) (c : Nat) (args : List Bytes) (eff : Bool) :
     · exact Tr.refl c st
 
 theorem runScript_tr (c sel : Nat) (sha : Bool) (now : Nat) (cmds : List (List Bytes)) :
-    ∀ (st : State) (last : Frame), Tr q (Disc w) c st (runScript w q c sel sha now st cmds last).1 := by
+    ∀ (st : State) (pcs : List Bool) (last : Frame), Tr q (Disc w) c st (runScript w q c sel sha now st cmds pcs last).1 := by
   induction cmds with
-  | nil => intro st last; exact Tr.refl c st
+  | nil => intro st pcs last; exact Tr.refl c st
   | cons cmd rest ih =>
-    intro st last
+    intro st pcs last
     simp only [runScript]
     split
-    · exact Tr.refl c st
+    · split
+      · exact ih _ _ _
+      · exact Tr.refl c st
     · split
       · exact Tr.access c st _ (disc_script w sel c now sha cmd)
-      · exact (Tr.access c st _ (disc_script w sel c now sha cmd)).trans (ih _ _)
+      · exact (Tr.access c st _ (disc_script w sel c now sha cmd)).trans (ih _ _ _)
 
 theorem tryPops_tr (c : Nat) (path : Path) (now : Nat) (left : Bool) (keys : List Bytes) :
     ∀ (st : State), Tr q (Disc w) c st (tryPops q c path now left st keys).1 := by
@@ -237,7 +239,7 @@ theorem dispatch_tr (st : State) (c now : Nat) (inExec : Bool) (r : Req) :
     Tr q (Disc w) c st (dispatch w q st c now inExec r).1 := by
   unfold dispatch
   split
-  · exact (runScript_tr w q c _ _ now _ st _).trans (afterSweep_tr w q _ c now _ inExec)
+  · exact (runScript_tr w q c _ _ now _ st _ _).trans (afterSweep_tr w q _ c now _ inExec)
   · exact Tr.refl c st
   · simp only []
     split
@@ -323,7 +325,7 @@ def PB (i : Nat) (ns : Bool) (a : Access) : Prop :=
 /-- a request that neither selects nor flushes everything; with `ns` also: not a script -/
 def Clean (ns : Bool) : Req → Prop
   | .plain a _ => nameOf a ≠ "SELECT" ∧ nameOf a ≠ "FLUSHALL"
-  | .script _ cmds => ns = false ∧ ∀ x ∈ cmds, nameOf x ≠ "FLUSHALL"
+  | .script _ cmds _ => ns = false ∧ ∀ x ∈ cmds, nameOf x ≠ "FLUSHALL"
 
 /-- connection `c` has database `i` selected and every pending wake-up is for database `i` -/
 def Stay (i c : Nat) (st : State) : Prop := (st.conns c).db = i ∧ ∀ wk ∈ st.wakes, wk.db = i
@@ -362,19 +364,22 @@ section B
 variable (w : Switches) (q : Quirks) (i : Nat) (ns : Bool) (c : Nat)
 
 theorem runScript_B (sha : Bool) (now : Nat) (hns : ns = false) (cmds : List (List Bytes)) (hc : ∀ x ∈ cmds, nameOf x ≠ "FLUSHALL") :
-    ∀ (st : State) (last : Frame), Stay i c st → TrB q i ns c st (runScript w q c i sha now st cmds last).1 := by
+    ∀ (st : State) (pcs : List Bool) (last : Frame), Stay i c st → TrB q i ns c st (runScript w q c i sha now st cmds pcs last).1 := by
   induction cmds with
-  | nil => intro st last h; exact TrB.refl h
+  | nil => intro st pcs last h; exact TrB.refl h
   | cons cmd rest ih =>
-    intro st last h
+    intro st pcs last h
     have hp : PB i ns { db := scriptCmdDb w (scriptDb w i sha) cmd, sel := i, conn := c, path := Path.script sha, now := now, cmd := cmd, obs := none } :=
       ⟨rfl, isFlushAll_false_of_ne (hc cmd (by simp)), by intro h'; rw [hns] at h'; exact absurd h' (by decide)⟩
+    have hc' : ∀ x ∈ rest, nameOf x ≠ "FLUSHALL" := fun x hx => hc x (by simp [hx])
     simp only [runScript]
     split
-    · exact TrB.refl h
+    · split
+      · exact ih hc' _ _ _ h
+      · exact TrB.refl h
     · split
       · exact TrB.access _ h hp
-      · exact (TrB.access _ h hp).trans (fun h' => ih (fun x hx => hc x (by simp [hx])) _ _ h')
+      · exact (TrB.access _ h hp).trans (fun h' => ih hc' _ _ _ h')
 
 theorem tryPops_B (path : Path) (hpath : ∀ b, path ≠ .script b) (now : Nat) (left : Bool) (keys : List Bytes) :
     ∀ (st : State), Stay i c st → TrB q i ns c st (tryPops q c path now left st keys).1 := by
@@ -519,10 +524,10 @@ theorem dispatch_B (st : State) (now : Nat) (inExec : Bool) (r : Req) (hr : Clea
     intro b; cases inExec <;> simp
   unfold dispatch
   split
-  · rename_i sha cmds
+  · rename_i sha cmds pcs
     simp only [Clean] at hr
     rw [h.1]
-    exact (runScript_B w q i ns c sha now hr.1 cmds hr.2 st _ h).trans (fun h' => afterSweep_B q i ns c _ now inExec h')
+    exact (runScript_B w q i ns c sha now hr.1 cmds hr.2 st _ _ h).trans (fun h' => afterSweep_B q i ns c _ now inExec h')
   · exact TrB.refl h
   · rename_i n args obs
     simp only [Clean] at hr
